@@ -528,3 +528,75 @@ def _source_construct(cls_q):
 for _q in (SFG, 'rsocket/streams/stream_from_async_generator.py::StreamFromAsyncGenerator'):
     harness('c06.source.construct[%s]' % _q.split('::')[1], ['C06', 'C07', 'C09', 'C12'],
             functions=[_q + '.__init__', SFG + '.__init__'])(_source_construct(_q))
+
+
+# --------------------------------------------------------------------------- credit wake-up (bounded, representation-independent)
+
+def _source_credit_wakeup(cls):
+    """BOUNDED, and independent of how the source keeps its credit (queue of grants, counter + event, ...): the source is built by
+    its real constructor and driven through subscribe() / request() only; the credit-feeder coroutine it starts is run with every
+    loop unrolled over an endless application generator.  Safety form of "delivers every element once enough credit has been
+    granted": the feeder is never parked waiting for credit while credit it has not used yet is outstanding (a lost wake-up), and
+    it never takes more elements from the generator than were granted."""
+    def run(E):
+        src, factory = mk_source(E, cls)
+        sub = SOpaque('subscriber', 'subscriber')
+        st = {'credit': 0, 'taken': 0, 'grants': 0, 'checked': False}
+        tasks = []
+        E.create_task_hook = lambda E_, t, coro: tasks.append((t, coro)) if hasattr(coro, 'func') else None
+        gen = SOpaque('generator', 'generator')
+
+        def nxt(E_, o, m, a, k):
+            st['taken'] += 1
+            v = (SOpaque('payload', 'element#%d' % st['taken']), False)      # an endless source: never complete, never exhausted
+            return v if cls == SFG else aio.Awaitable('ready', result=v)
+        OpaqueLog(E, returns={'__call__': lambda *a: gen, '__aiter__': lambda *a: SOpaque('iterator', 'iteration'),
+                              '__next__': nxt, '__anext__': nxt})
+        E.builtins['iter'] = M.Builtin('iter', lambda v: SOpaque('iterator', 'iteration'))
+        E.builtins['next'] = M.Builtin('next', lambda g, *d: nxt(E, g, '__next__', (g,) + tuple(d), {}))
+
+        def grant(n):
+            st['credit'] += n
+            st['grants'] += 1
+            E.call(E.getattr(src, 'request'), [n])
+        E.call(E.getattr(src, 'subscribe'), [sub])
+        grant(1 + E.path.choice(2, 'first-grant'))
+        feeders = [c for t, c in tasks if c.func.name != 'feed_subscriber']
+        E.prove('credit:the_first_grant_starts_exactly_one_credit_feeder', len(feeders) == 1)
+        if len(feeders) != 1:
+            return
+        if E.path.choice(2, 'second-grant-before-the-feeder-runs') == 1:
+            grant(1 + E.path.choice(2, 'second-grant'))
+            E.prove('credit:a_later_grant_starts_no_second_feeder', len([c for t, c in tasks if c.func.name != 'feed_subscriber']) == 1)
+
+        def on_suspend(E_, what):
+            kind, obj = what
+            if kind == 'sleep':
+                # the feeder yields to the event loop between elements: the requester's next REQUEST_N may be handled right here
+                if st['grants'] < 2 and E_.path.choice(2, 'credit-granted-mid-batch') == 1:
+                    grant(1 + E_.path.choice(2, 'second-grant'))
+                return None
+            blocked = (kind == 'queue.get') or (kind == 'event.wait' and obj.attrs.get('flag') is not True) or kind == 'future'
+            if blocked:
+                E_.cover('parked-waiting-for-credit')
+                E_.prove('credit:never_parked_while_granted_credit_is_unused[lost wake-up]', st['credit'] - st['taken'] == 0)
+                st['checked'] = True
+                E_.throw('CancelledError')
+            return None
+        E.suspend_hook = on_suspend
+        E.unroll_limit = 12
+        try:
+            E.await_value(feeders[0])
+        except PyExc:
+            pass
+        E.prove('credit:never_more_elements_taken_from_the_generator_than_granted', st['taken'] <= st['credit'])
+        E.prove('credit:scenario_reached_the_waiting_state', st['checked'])
+    return run
+
+
+for _q, _n in ((SFG, 'generator'), (SFA, 'async-generator')):
+    harness('c06.source.credit_wakeup.bounded[%s]' % _n, ['C06'], kind='bounded', replay='c06_source_wakeup',
+            functions=[SFG + '.request', SFG + '.queue_next_n', _q + '._generate_next_n', _q + '._start_generator'],
+            assumptions=['BOUNDED stand-in: one or two grants of 1..2 units, the second arriving before the feeder runs or while it yields '
+                         'to the event loop between two elements; endless generator; loops unrolled; asyncio.Queue.get / Event.wait '
+                         'suspend iff empty / not set'])(_source_credit_wakeup(_q))
